@@ -13,4 +13,8 @@ Mine == LET st == [sx |-> sx, sy |-> sy] IN
 KernelIsStorages == Mine = St!Successors(IF Sliding THEN "interval" ELSE "uniform", Cap, TRUE, [sx |-> sx, sy |-> sy],
                                          <<n + 1, 100 + n + 1>>)
 Spec == Init /\ [][Next]_<<n, sx, sy>>
+\* the actions the TLAPS proofs (StoreIndProof.tla: any capacity, any stream length) are about are this module's step
+P == INSTANCE StoreIndProof
+ProofIsAboutThisStep == [][(IF Sliding THEN P!UpdateSliding ELSE P!UpdateReservoir) <=> Update]_<<n, sx, sy>>
+ProofInvariants == IF Sliding THEN P!InvSliding ELSE P!InvReservoir
 ================================================================================
